@@ -386,6 +386,9 @@ func (b Batch) Stats() BatchStats {
 	return s
 }
 
+// SynEmptyChance: one in so many synonym fields defines nothing
+var SynEmptyChance = 9
+
 // SharedThesNames lets AddSynDocs name a thesaurus like an ordinary field (data in two sections)
 var SharedThesNames = true
 
@@ -418,7 +421,7 @@ func AddSynDocs(r *Rng, b Batch, idbase string) Batch {
 			twins := r.Chance(8) // exactly the case twins
 			if twins {
 				nd = 2
-			} else if r.Chance(9) {
+			} else if r.Chance(SynEmptyChance) {
 				nd = 0 // a synonym field that defines nothing (a thesaurus without terms)
 			}
 			for q := 0; q < nd; q++ {
